@@ -1,5 +1,6 @@
 """Shared set-up for the date-time harnesses (C06..C11): real English parser stack, match-object stub,
 symbolic-digit plumbing (harness/digits.py)."""
+import os
 import sys
 from datetime import datetime, timedelta
 
@@ -22,9 +23,24 @@ DateUtils = UTIL.DateUtils
 DateTimeFormatUtil = UTIL.DateTimeFormatUtil
 DayOfWeek = UTIL.DayOfWeek
 
-digits.install_format_hook()
-for _m in (UTIL, BASE_DATE, BASE_TIME, BASE_MERGED):
+ENGINE = os.environ.get('VERIF_ENGINE', 'native')
+MODS = [UTIL, BASE_DATE, BASE_TIME, BASE_MERGED] + [sys.modules[DT + n] for n in (
+    'base_dateperiod', 'base_datetime', 'base_datetimeperiod', 'base_duration', 'base_timeperiod', 'base_holiday', 'base_set')]
+if ENGINE == 'xh':
+    digits.install_format_hook()
+for _m in MODS:
     _m.int = digits.unint          # int(<group text>) of a placeholder -> the symbolic int it stands for
+if ENGINE == 'sx':
+    # symx: the modules under test get the symbolic calendar classes (lib/symdate.py) in place of datetime/timedelta/calendar
+    from lib import symx, symdate
+    digits.install_symx_hook()
+    symx.RESET_HOOKS.append(symdate.reset)
+    datetime, timedelta = symdate.sdatetime, symdate.stimedelta
+    for _m in MODS:
+        for _n, _v in (('datetime', symdate.sdatetime), ('timedelta', symdate.stimedelta), ('calendar', symdate.calendar)):
+            if hasattr(_m, _n):
+                setattr(_m, _n, _v)
+    DateUtils.min_value = symdate.const(1, 1, 1)
 
 CFG = EnglishCommonDateTimeParserConfiguration()
 MIN_VALUE = DateUtils.min_value
